@@ -1125,6 +1125,14 @@ pub fn generate<W: Write>(mode: &str, r: &mut Rng, out: &mut W) {
             let t = gen::any_text(r, crlf);
             let mut o = gen_opts(r, &t);
             o.crlf = crlf || r.chance(1, 10);
+            if mode == "fill2" && r.chance(3, 4) {
+                // the property's option domain: empty indents, built-in splitters
+                o.ii = String::new();
+                o.si = String::new();
+                if o.spl == 2 {
+                    o.spl = 1;
+                }
+            }
             vec![mode.into(), o.enc(), enc::s(&t)]
         }
         "wsl" => {
@@ -1360,6 +1368,9 @@ pub fn generate<W: Write>(mode: &str, r: &mut Rng, out: &mut W) {
                 o.ii = String::new();
                 o.si = String::new();
             }
+            if o.spl == 2 && r.chance(5, 6) {
+                o.spl = *r.pick(&[0u8, 1]);
+            }
             vec!["wrap13".into(), o.enc(), enc::s(&t)]
         }
         "unfill15" | "refill16" => {
@@ -1376,6 +1387,9 @@ pub fn generate<W: Write>(mode: &str, r: &mut Rng, out: &mut W) {
                 o.unicode = false;
                 if o.w > 1000 {
                     o.w = 30;
+                }
+                if r.chance(1, 2) {
+                    o.w = r.range(2, 24);
                 }
                 o
             };
